@@ -353,6 +353,81 @@ def _judge_esn_forced(rng, tag):
     return None
 
 
+def _judge_teacher_node(rng, tag):
+    """online training with the targets given as a teacher NODE of the model (Model.train(X, teacher) or {readout: teacher}) and
+    force_teachers=True: the feedback receiver sees the teacher node's output of the previous step, exactly as with array targets"""
+    import reservoirpy as rpy
+    rpy.verbosity(0)
+    from reservoirpy.node import Node
+    from reservoirpy.nodes import Input, RLS
+    seen = []
+
+    def init(node, x=None, **kw):
+        node.set_input_dim(x.shape[1]); node.set_output_dim(x.shape[1])
+
+    def fwd(node, x):
+        seen.append(np.asarray(node.feedback()).ravel().copy())
+        return x
+    k = float(rng.randint(2, 5))
+    T = 5
+    X = scen.fl(scengen.rows(rng, T, 1))
+    for form in ("node", "mapping"):
+        inp = Input(name="tn%s%s_in" % (tag, form))
+        R = Node(forward=fwd, initializer=init, name="tn%s%s_R" % (tag, form)); ro = RLS(name="tn%s%s_o" % (tag, form))
+        teacher = Node(forward=lambda n, x: k * x + 1, initializer=init, name="tn%s%s_T" % (tag, form))
+        R <<= ro
+        m = inp >> [R >> ro, teacher]
+        sc = {"tag": tag, "kind": "teacher-node", "form": form}
+        seen.clear()
+        try:
+            m.train(X, teacher if form == "node" else {ro.name: teacher}, force_teachers=True)
+        except Exception as ex:  # noqa: BLE001
+            return _viol("train:teacher-node:exception", "online training with a teacher node (%s) raises %r" % (form, ex), sc)
+        tv = k * X + 1
+        for t in range(T):
+            e = np.zeros(1) if t == 0 else tv[t - 1]
+            if len(seen) < T or not np.allclose(seen[-T + t], e, atol=1e-9):
+                return _viol("train:teacher-node-not-forced", "online train with a teacher node (%s), force_teachers=True: step %d receiver saw %s, expected the teacher's previous output %s"
+                             % (form, t, seen[-T + t].tolist() if len(seen) >= T else None, np.asarray(e).tolist()), sc)
+    return None
+
+
+def _judge_esn_handwired(rng, tag):
+    """ESN node assembled from a reservoir that was wired to the readout by hand (res <<= readout; ESN(reservoir=res, readout=readout)):
+    while fitting, the reservoir sees the targets shifted by one step (zero first) like any other offline fit"""
+    import reservoirpy as rpy
+    rpy.verbosity(0)
+    from reservoirpy.nodes import ESN, Reservoir, Ridge
+    T, d = 6, 2
+    Xs = [scen.fl(scengen.rows(rng, T, d)) for _ in range(2)]; Ys = [scen.fl(scengen.rows(rng, T, 1, lim=8)) for _ in range(2)]
+    res = Reservoir(3, lr=0.5, seed=int(rng.randint(0, 10 ** 6)), rc_connectivity=1., input_connectivity=1., fb_connectivity=1.,
+                    activation=scen.ACTS["id"], name="esnhw%s_res" % tag)
+    rd = Ridge(ridge=0.5, name="esnhw%s_rd" % tag)
+    res <<= rd
+    sc = {"tag": tag, "kind": "esn-handwired"}
+    try:
+        e = ESN(reservoir=res, readout=rd, name="esnhw%s" % tag)
+        e.fit(Xs, Ys)
+    except Exception as ex:  # noqa: BLE001
+        return _viol("esn-fit:exception", "ESN built from a hand-wired feedback reservoir: fit raises %r" % (ex,), sc)
+    dn = lambda a: np.asarray(a.todense() if hasattr(a, "todense") else a)
+    W, Win, Wfb, bias = dn(res.W), dn(res.Win), dn(res.Wfb), dn(res.bias).reshape(-1)
+    S = []
+    for X, Y in zip(Xs, Ys):
+        r = np.zeros(3)
+        for t in range(T):
+            fb = np.zeros(1) if t == 0 else Y[t - 1]
+            r = 0.5 * r + 0.5 * (W @ r + Win @ X[t] + bias + Wfb @ fb)
+            S.append(np.concatenate([[1.0], r]))
+    S = np.array(S); Yall = np.vstack(Ys)
+    Wref = np.linalg.solve(S.T @ S + 0.5 * np.eye(4), S.T @ Yall)
+    got = np.vstack([dn(rd.bias).reshape(1, -1), dn(rd.Wout)])
+    if not np.allclose(got, Wref, rtol=1e-7, atol=1e-9):
+        return _viol("esn-fit:targets-not-forced", "ESN(reservoir=res, readout=rd) with res <<= rd: the fitted readout differs from ridge regression on the "
+                     "states driven by the targets shifted by one step", sc, Wref.tolist(), got.tolist())
+    return None
+
+
 def judge(case):
     return _judge(case["scenario"])
 
@@ -370,7 +445,8 @@ def oracle(ctx, scale=1):
     for i in range(ctx.n(3, 20)):
         out += _judge_training(rng, "%d_%d" % (ctx.seed, i))
         for v in (_judge_list_sender(rng, "%d_%d" % (ctx.seed, i)), _judge_esn_forced(rng, "%d_%d" % (ctx.seed, i)),
-                  _judge_deep_fit_forcing(rng, "%d_%d" % (ctx.seed, i))):
+                  _judge_deep_fit_forcing(rng, "%d_%d" % (ctx.seed, i)), _judge_teacher_node(rng, "%d_%d" % (ctx.seed, i)),
+                  _judge_esn_handwired(rng, "%d_%d" % (ctx.seed, i))):
             if v:
                 out.append(v)
     return {"evaluations": n + ctx.n(3, 20), "violations": out,
@@ -381,6 +457,12 @@ def replay(payload):
     sc = payload["scenario"]
     if sc.get("kind") == "deep-fit":
         vs = [v for v in (_judge_deep_fit_forcing(core.random.Random(i), "rd%d" % i) for i in range(4)) if v]
+        return {"violates": bool(vs), "detail": vs[:1]}
+    if sc.get("kind") == "teacher-node":
+        vs = [v for v in (_judge_teacher_node(core.random.Random(i), "rt%d" % i) for i in range(4)) if v]
+        return {"violates": bool(vs), "detail": vs[:1]}
+    if sc.get("kind") == "esn-handwired":
+        vs = [v for v in (_judge_esn_handwired(core.random.Random(i), "rh%d" % i) for i in range(4)) if v]
         return {"violates": bool(vs), "detail": vs[:1]}
     if sc.get("kind") == "esn-forced":
         vs = [v for v in (_judge_esn_forced(core.random.Random(i), "rq%d" % i) for i in range(4)) if v]
